@@ -42,7 +42,7 @@ VARIANTS = [
            "        gate = self._table.get(memo_key)\n")],
          ("C18.8", "GateMemoizer.get:table-lookup"), ("C18",)),
     fire("w3-validate-one-level-constant",
-         [(PA, "                and isinstance(_constant_value(value), float)\n                and _constant_value(value).is_integer()\n",
+         [(PA, "                and isinstance(_constant_value(value), Real)\n                and _constant_value(value).is_integer()\n",
            '                and isinstance(getattr(value, "value", None), float)\n                and value.value.is_integer()\n')],
          ("C18.9", "Parameter.validate:constant-of-constant"), ("C18",)),
     # ---- C05
